@@ -294,6 +294,27 @@ func c04(c *ctx) {
 			t.run(sc)
 		}
 	}
+	// OnIntermediate callbacks that look at the header only, or take one short Read of the control
+	// payload: what they leave unread is the reader's to drop before the next frame
+	for mi, m := range [][]fspec{
+		{{Op: 1, Fin: false, Pay: []byte("hel")}, {Op: 9, Fin: true, Pay: []byte("ping-payload")}, {Op: 0, Fin: true, Pay: []byte("lo")}},
+		{{Op: 2, Fin: false, Pay: []byte{1, 2}}, {Op: 10, Fin: true, Pay: asciiPay(125, 1)}, {Op: 0, Fin: false, Pay: []byte{}}, {Op: 9, Fin: true, Pay: []byte("x")}, {Op: 0, Fin: true, Pay: []byte{3}}},
+		{{Op: 1, Fin: false, Pay: []byte{}}, {Op: 9, Fin: true, Pay: []byte{}}, {Op: 9, Fin: true, Pay: []byte("ab")}, {Op: 0, Fin: true, Pay: []byte("z")}},
+	} {
+		for _, cbRead := range []int{-1, 1, 5, 200} {
+			for _, side := range []string{"server", "client"} {
+				for ci := range rchunks {
+					for _, disc := range []int{-1, 0} {
+						fs := append(append([]fspec(nil), m...), fspec{Op: 2, Fin: true, Pay: []byte("next")})
+						key := fmt.Sprintf("cbread/%d/%d/%s/%d/%d", mi, cbRead, side, ci, disc)
+						sc := mkScenario(key, side, rvariant{"reader", nil, disc, false}, fs, rchunks[ci], rbufs[(mi+ci)%len(rbufs)])
+						sc.CbRead = cbRead
+						t.run(sc)
+					}
+				}
+			}
+		}
+	}
 	// long runs of frames that carry no message bytes (empty fragments, control frames) inside a message
 	for ri, run := range []int{99, 100, 101, 160} {
 		for mode := 0; mode < 3; mode++ {
